@@ -25,10 +25,10 @@
 //     that was not recorded in the cycle.
 //   - "each starts where the previous collection ended": the StartTime of
 //     every delta point of collection k must lie inside the harness bracket
-//     [before, after] of the delta reader's collection k-1 (bracket of
-//     instrument creation for k = 1; all instruments are created up front),
-//     and must equal the Time of the same stream's point in collection k-1
-//     when there is one. Gauge points handed out by the delta reader are held
+//     [before, after] of the delta reader's collection k-1, or, when the
+//     instrument was created after that collection (or k = 1), inside the
+//     bracket of the instrument's creation; it must equal the Time of the same
+//     stream's point in collection k-1 when there is one. Gauge points handed out by the delta reader are held
 //     to the same rule (their aggregator's start is part of the anchored
 //     state); gauge points of the cumulative reader to "one fixed start".
 //   - An observation made by a multi-instrument callback for an instrument
@@ -43,10 +43,15 @@
 //     of a bucket boundary; the generator only draws such values (exact
 //     powers of two are boundaries and are left to C07), and a stream that
 //     received any other value (hand-edited replay) skips the bucket clause.
+//   - Any ResourceMetrics is legal input to Collect: a fresh one, the one the
+//     same reader filled last time, or one the other reader filled (the case
+//     says which, per Collect); what Collect leaves in it is what the reader
+//     "reports". One bucket count per bucket of the point's own bounds is
+//     taken to be part of "per-bucket counts".
 //   - Data handed out by Collect in an earlier cycle must not change when
 //     later measurements are made (otherwise the reported cumulative value
-//     stops being the running total after the fact); checked when the case
-//     passes a fresh ResourceMetrics to every Collect.
+//     stops being the running total after the fact); checked for every Collect
+//     that was given a fresh ResourceMetrics.
 package c08
 
 import (
@@ -82,15 +87,49 @@ type syncDef struct {
 	name  string
 	kind  syncKind
 	float bool
+	scope int // 0: meter "c08", 1: meter "c08b"
+	// explicit histograms only: where the boundaries come from.
+	// bAdvisory: metric.WithExplicitBucketBoundaries(Case.Bounds[bidx]...),
+	// bView: a provider View on the name with Case.Bounds[bidx], bDefault: the
+	// SDK default boundaries.
+	bsrc int
+	bidx int
 }
 
+const (
+	bDefault = iota
+	bAdvisory
+	bView
+)
+
+// The first ten entries keep their indices (committed replays refer to them).
 var syncDefs = []syncDef{
-	{"ctr_i", kCounter, false}, {"ctr_f", kCounter, true},
-	{"udc_i", kUpDown, false}, {"udc_f", kUpDown, true},
-	{"hist_i", kHist, false}, {"hist_f", kHist, true},
-	{"xhist_i", kExpo, false}, {"xhist_f", kExpo, true},
-	{"gauge_i", kGauge, false}, {"gauge_f", kGauge, true},
+	{name: "ctr_i", kind: kCounter}, {name: "ctr_f", kind: kCounter, float: true},
+	{name: "udc_i", kind: kUpDown}, {name: "udc_f", kind: kUpDown, float: true},
+	{name: "hist_i", kind: kHist}, {name: "hist_f", kind: kHist, float: true},
+	{name: "xhist_i", kind: kExpo}, {name: "xhist_f", kind: kExpo, float: true},
+	{name: "gauge_i", kind: kGauge}, {name: "gauge_f", kind: kGauge, float: true},
+	// explicit histograms whose boundary lists (hence bucket counts) are part
+	// of the case: advisory boundaries, boundaries from a View, and a second
+	// scope.
+	{name: "ahist_i", kind: kHist, bsrc: bAdvisory, bidx: 0}, {name: "ahist_f", kind: kHist, float: true, bsrc: bAdvisory, bidx: 0},
+	{name: "vhist_i", kind: kHist, bsrc: bView, bidx: 1}, {name: "vhist_f", kind: kHist, float: true, bsrc: bView, bidx: 1},
+	{name: "s2hist_i", kind: kHist, scope: 1, bsrc: bAdvisory, bidx: 2}, {name: "s2hist_f", kind: kHist, float: true, scope: 1, bsrc: bAdvisory, bidx: 2},
+	{name: "s2dhist_i", kind: kHist, scope: 1}, {name: "s2ctr_f", kind: kCounter, float: true, scope: 1},
 }
+
+const nBounds = 3 // boundary lists carried by a case
+
+// boundsMenu: valid (strictly increasing) boundary lists of different widths.
+// An empty advisory list means "SDK default" (16 buckets); an empty View list
+// is a single-bucket histogram.
+var boundsMenu = [][]float64{
+	{}, {5}, {10, 100}, {0, 5, 10, 25}, {0, 1, 2, 3, 5, 8, 13, 21, 34},
+	{0, 5, 10, 25, 50, 75, 100, 250, 500, 750, 1000, 2500, 5000, 7500, 10000, 20000, 50000, 100000, 200000, 500000, 1000000, 2000000, 5000000, 10000000},
+}
+
+// defaultBounds is what a case without a "bounds" field (older replays) runs with.
+var defaultBounds = [nBounds][]float64{{10, 100}, {0, 1, 2, 3, 5, 8, 13, 21, 34}, {5}}
 
 type obsKind int
 
@@ -143,16 +182,42 @@ type Op struct {
 	Plan     []Obs  `json:"plan,omitempty"`
 	CB       int    `json:"cb,omitempty"`
 	CumFirst bool   `json:"cum_first,omitempty"` // collect: cumulative reader first
+	// collect: which ResourceMetrics each reader's Collect is given. 0: the
+	// case default (Case.Reuse: the reader's own previous output, else a fresh
+	// one); k >= 1: slot k-1 of a pool shared by both readers, i.e. whatever a
+	// Collect of either reader last left there ("any previously filled
+	// ResourceMetrics is legal input").
+	DRM int `json:"drm,omitempty"`
+	CRM int `json:"crm,omitempty"`
 }
+
+const rmPool = 3
 
 // Case is one generated history plus the fixed configuration it runs under.
 type Case struct {
 	NSets        int     `json:"nsets"`          // attribute sets 0..NSets-1 of the pool are used
 	ExpoMaxSize  int     `json:"expo_max_size"`  // MaxSize of the exponential histogram view
 	ProvCumFirst bool    `json:"prov_cum_first"` // order of WithReader options
-	Reuse        bool    `json:"reuse"`          // pass the same ResourceMetrics to every Collect of a reader
+	Reuse        bool    `json:"reuse"`          // default: pass the same ResourceMetrics to every Collect of a reader
 	Multi        [][]int `json:"multi"`          // instrument list (observable indices) of each multi callback slot
-	Ops          []Op    `json:"ops"`
+	// Bounds: boundary lists of the ahist_* (advisory), vhist_* (View) and
+	// s2hist_* (advisory, second scope) histograms.
+	Bounds [][]vk.F64 `json:"bounds,omitempty"`
+	// Late: sync instruments that are not created up front but at their first
+	// "rec" (a scope none of whose instruments exists yet is first used then).
+	Late []int `json:"late,omitempty"`
+	Ops  []Op  `json:"ops"`
+}
+
+func (c Case) bounds(i int) []float64 {
+	if i < len(c.Bounds) {
+		out := make([]float64, len(c.Bounds[i]))
+		for j, b := range c.Bounds[i] {
+			out[j] = float64(b)
+		}
+		return out
+	}
+	return append([]float64{}, defaultBounds[i]...)
 }
 
 // ---------------------------------------------------------------------
@@ -281,17 +346,70 @@ func gen(t *rapid.T) Case {
 	c.NSets = rapid.SampledFrom([]int{1, 2, 2, 3, 3, 4, 5}).Draw(t, "nsets")
 	c.ExpoMaxSize = rapid.SampledFrom([]int{160, 160, 20, 4}).Draw(t, "expo_max_size")
 	c.ProvCumFirst = rapid.Bool().Draw(t, "prov_cum_first")
-	c.Reuse = rapid.Bool().Draw(t, "reuse")
+	// Which ResourceMetrics the Collect calls are given: always a fresh one,
+	// the reader's own previous output, or (hostile) per Collect a slot of a
+	// pool shared by both readers.
+	rmMode := rapid.SampledFrom([]string{"fresh", "own", "own", "pool", "pool"}).Draw(t, "rm_mode")
+	c.Reuse = rmMode == "own" || (rmMode == "pool" && rapid.Bool().Draw(t, "reuse"))
+	genCollect := func(t *rapid.T) Op {
+		op := Op{K: "collect", CumFirst: rapid.Bool().Draw(t, "cum_first")}
+		if rmMode == "pool" {
+			slots := []int{0, 1, 1, 2, 2, 3}
+			op.DRM = rapid.SampledFrom(slots).Draw(t, "drm")
+			op.CRM = rapid.SampledFrom(slots).Draw(t, "crm")
+		}
+		return op
+	}
+	c.Bounds = make([][]vk.F64, nBounds)
+	for i := range c.Bounds {
+		c.Bounds[i] = []vk.F64{}
+		for _, b := range rapid.SampledFrom(boundsMenu).Draw(t, "bounds") {
+			c.Bounds[i] = append(c.Bounds[i], vk.F64(b))
+		}
+	}
 
-	// A few active instruments per history so that streams are hit repeatedly.
+	// A few active instruments per history so that streams are hit repeatedly;
+	// in a third of the histories they are kindred (same kind and number type:
+	// e.g. all the int64 explicit histograms with their different widths).
 	var syncAct, obsAct []int
-	if rapid.IntRange(0, 9).Draw(t, "all_instruments") == 0 {
+	switch r := rapid.IntRange(0, 9).Draw(t, "instrument_mix"); {
+	case r == 0:
 		syncAct, obsAct = seq(len(syncDefs)), seq(len(obsDefs))
-	} else {
+	case r <= 3:
+		a := syncDefs[rapid.IntRange(0, len(syncDefs)-1).Draw(t, "kin_of")]
+		var kin []int
+		for i, d := range syncDefs {
+			if d.kind == a.kind && d.float == a.float {
+				kin = append(kin, i)
+			}
+		}
+		perm := rapid.Permutation(kin).Draw(t, "kin")
+		syncAct = append(syncAct, perm[:rapid.IntRange(min(2, len(kin)), len(kin)).Draw(t, "kin_n")]...)
+		for _, i := range pickSubset(t, len(syncDefs), 0, 2, "sync_extra") {
+			if !contains(syncAct, i) {
+				syncAct = append(syncAct, i)
+			}
+		}
+		obsAct = pickSubset(t, len(obsDefs), 0, 2, "obs_active")
+	default:
 		syncAct = pickSubset(t, len(syncDefs), 0, 4, "sync_active")
 		obsAct = pickSubset(t, len(obsDefs), 0, 3, "obs_active")
 		if len(syncAct)+len(obsAct) == 0 {
 			syncAct = []int{rapid.IntRange(0, len(syncDefs)-1).Draw(t, "one_sync")}
+		}
+	}
+	// Some of them are only created when they are first recorded to; the
+	// instruments the history never touches are (mostly) not created at all, so
+	// that a scope only exists once one of its instruments is used.
+	allUpFront := rapid.IntRange(0, 3).Draw(t, "unused_up_front") == 0
+	for i := range syncDefs {
+		switch {
+		case !contains(syncAct, i):
+			if !allUpFront {
+				c.Late = append(c.Late, i)
+			}
+		case rapid.IntRange(0, 2).Draw(t, "late") == 0:
+			c.Late = append(c.Late, i)
 		}
 	}
 
@@ -358,7 +476,7 @@ func gen(t *rapid.T) Case {
 		w := rapid.IntRange(0, 99).Draw(t, "op")
 		switch {
 		case w < 24 || (len(syncAct) == 0 && w >= 24+planW+regW):
-			return Op{K: "collect", CumFirst: rapid.Bool().Draw(t, "cum_first")}
+			return genCollect(t)
 		case w < 24+planW:
 			o := rapid.SampledFrom(obsAct).Draw(t, "obs")
 			return Op{K: "plan", Inst: o, Plan: genPlan(t, o)}
@@ -378,16 +496,17 @@ func gen(t *rapid.T) Case {
 	room := maxSteps - 1 - len(c.Ops)
 	atLeast := rapid.IntRange(1, room).Draw(t, "min_steps") // rapid's own slice lengths are strongly biased to short
 	c.Ops = append(c.Ops, rapid.SliceOfN(step, atLeast, room).Draw(t, "steps")...)
-	c.Ops = append(c.Ops, Op{K: "collect", CumFirst: rapid.Bool().Draw(t, "cum_first_last")})
+	c.Ops = append(c.Ops, genCollect(t))
 	return c
 }
 
 func TestDeltaCumulative(t *testing.T) {
 	vk.Run(t, vk.Spec[Case]{
 		Property: "C08", Check: "delta_vs_cumulative",
-		Rule: "one MeterProvider, a delta and a cumulative ManualReader; history of <= 60 steps over record (sync counter / up-down / explicit + exponential histogram / gauge, int64 and float64), " +
+		Rule: "one MeterProvider, a delta and a cumulative ManualReader; history of <= 60 steps over record (sync counter / up-down / explicit + exponential histogram / gauge, int64 and float64; " +
+			"explicit histograms with default, advisory and View boundary lists of 1..25 buckets in two scopes; instruments created up front or at first use), " +
 			"setObservationPlan (observable counter / up-down / gauge fed by instrument callbacks and by RegisterCallback callbacks, incl. observations for instruments a callback is not registered for), " +
-			"register / unregister callback, collectBoth; 1..5 attribute sets from a fixed pool; " +
+			"register / unregister callback, collectBoth (each Collect given a fresh ResourceMetrics, the reader's own previous output or a pool slot either reader filled before); 1..5 attribute sets from a fixed pool; " +
 			"non-trivial = >= 3 collections and (a stream that is reported, then absent for a cycle, then reported again, or a multi-instrument callback that observed in a cycle and is unregistered before a later one); distinct = distinct case encodings",
 		Quick: 8000, Thorough: 120000,
 		Gen: gen, Run: run,
